@@ -16,7 +16,7 @@ def _cfg():
 
 
 @contextlib.contextmanager
-def observing_roots(store):
+def observing_roots(store, owners=None):
     cfg = _cfg()
     orig = cfg.GraphBuilder._add_new_node
 
@@ -25,6 +25,8 @@ def observing_roots(store):
         node = orig(self, ast_node)
         if empty:
             store.append(ast_node)
+        if owners is not None:
+            owners[id(node)] = (node, list(self.owners[node]))    # the builder's own bookkeeping, as recorded (keyed by the CFG node)
         return node
     cfg.GraphBuilder._add_new_node = wrapped
     try:
@@ -54,8 +56,10 @@ class RealGraphs:
         self.mirror_detail = ''
         self.unknown_nodes = 0
         roots = []
+        own = {}
+        self.owners = {}
         try:
-            with observing_roots(roots):
+            with observing_roots(roots, own):
                 raw = cfg.build(fn)
         except Exception as e:  # the real code's own exception (e.g. except ... as name)
             self.error = '%s: %s' % (type(e).__name__, e)
@@ -92,6 +96,8 @@ class RealGraphs:
                 if n.ast_node is not k:
                     self.mirror_ok = False
                     self.mirror_detail = 'index key is not the node\'s ast_node'
+            self.owners[fid] = [[nid(n)] + sorted(idof(st) if idof(st) is not None else -1 for st in own.get(id(n), (None, []))[1])
+                                for n in g.index.values()]
             self.graphs[fid] = {
                 'nodes': nodes,
                 'entry': nid(g.entry) if g.entry is not None else None,
